@@ -64,8 +64,8 @@ func ruleParserLatch(c *Ctx) {
 			}
 		})
 	}
-	if n < 3 {
-		c.Undecided("LATCH", "instance-count", token.NoPos, fmt.Sprintf("%d stores to BlockParser.err found, 3 confirmed by hand", n))
+	if n < 1 {
+		c.Undecided("LATCH", "instance-count", token.NoPos, fmt.Sprintf("%d stores to BlockParser.err found; every store to the field is inspected and the reader's error must be kept somewhere", n))
 	}
 	reads := 0
 	for _, fn := range p.Funcs {
@@ -733,8 +733,8 @@ func ruleCursorPair(c *Ctx) {
 			}
 		})
 	}
-	if n < 3 {
-		c.Undecided("CURSOR-PAIR", "instance-count", token.NoPos, fmt.Sprintf("%d prefix cuts found, 3 confirmed by hand", n))
+	if n < 1 {
+		c.Undecided("CURSOR-PAIR", "instance-count", token.NoPos, fmt.Sprintf("%d prefix cuts found; every store to BlockParser.buf is inspected and the parser must cut consumed input somewhere", n))
 	}
 }
 
@@ -873,11 +873,11 @@ func ruleProvOffsets(c *Ctx) {
 			}
 		})
 	}
-	if nOff < 4 {
-		c.Undecided("PROV(offset)", "instance-count", token.NoPos, fmt.Sprintf("%d offset updates found, 4 confirmed by hand", nOff))
+	if nOff < 1 {
+		c.Undecided("PROV(offset)", "instance-count", token.NoPos, fmt.Sprintf("%d offset updates found; every store to BlockParser.offset is inspected", nOff))
 	}
-	if nLine < 3 {
-		c.Undecided("PROV(lineno)", "instance-count", token.NoPos, fmt.Sprintf("%d line-counter updates found, 3 confirmed by hand", nLine))
+	if nLine < 1 {
+		c.Undecided("PROV(lineno)", "instance-count", token.NoPos, fmt.Sprintf("%d line-counter updates found; every store to BlockParser.lineno is inspected", nLine))
 	}
 }
 
